@@ -182,6 +182,17 @@ def ensure_coq(report):
             pinned = os.path.join(COQ, "Generated", "Tables.pinned")
             report["tables_differ_from_pinned"] = (
                 os.path.exists(pinned) and open(pinned).read() != text)
+        # the functions of yarl/_path.py, re-translated from the source (fail closed: a stub and the reason)
+        import gen_model
+        gen = os.path.join(COQ, "Generated", "PathGen.v")
+        try:
+            gtext, gerrs = gen_model.generate(REPO)
+        except Exception as e:  # noqa: B902
+            gtext, gerrs = None, [f"{type(e).__name__}: {e}"]
+        report["model_gen_errors"] = gerrs
+        if gtext is not None and (not os.path.exists(gen) or open(gen).read() != gtext):
+            with open(gen, "w") as f:
+                f.write(gtext)
         mk = os.path.join(COQ, "Makefile")
         proj = os.path.join(COQ, "_CoqProject")
         write_coqproject()
@@ -570,6 +581,7 @@ def finish(ctx, obligations, trusted_base, level_note_assumptions, rule):
              "theorems": names, "coqc_error": obligations.get("error"),
              "make_log_tail": ctx.report.get("make_log_tail"),
              "forbidden": ctx.report.get("forbidden"), "tables_error": ctx.report.get("tables_error"),
+             "model_gen_errors": ctx.report.get("model_gen_errors"),
              "note": "no concrete failing input was found by the correspondence and predicate suites"}
         path = write_replay(ctx, v, 0)
         lines.append(f"VIOLATION property={prop} replay={path} no-failing-input-found")
@@ -591,7 +603,7 @@ def finish(ctx, obligations, trusted_base, level_note_assumptions, rule):
             "known_finding_hits": ctx.known_hits,
             "backends": ["py"] + (["c"] if ctx.c_ok else []),
             "build": {k: ctx.report.get(k) for k in
-                      ("make_rc", "driver_rc", "build_s", "tables_differ_from_pinned", "tables_error", "forbidden")},
+                      ("make_rc", "driver_rc", "build_s", "tables_differ_from_pinned", "tables_error", "model_gen_errors", "forbidden")},
             "notes": ctx.notes,
         },
         "assumptions": level_note_assumptions,
